@@ -89,6 +89,7 @@ func (e *Enc) reset() {
 	e.curR = tTrue
 	e.curB = nil
 	e.backOrd = map[*ssa.BasicBlock]int{}
+	e.axiomMemo = map[string]bool{}
 	if e.famSorts == nil {
 		e.famSorts = map[string]string{}
 	}
@@ -503,6 +504,7 @@ func (e *Enc) ret(r *ssa.Return) {
 	names := resultNames(sig)
 	for i, n := range names {
 		ctx.vars[n] = TV{e.val(r.Results[i]), sig.Results().At(i).Type()}
+		ctx.vars[fmt.Sprintf("result%d", i)] = ctx.vars[n]
 	}
 	if len(names) == 1 {
 		ctx.vars["result"] = ctx.vars[names[0]]
